@@ -121,7 +121,11 @@ func (d *DeterministicSharder) Start() error {
 		// host can run.
 		self, err = d.Peers.GetInstanceID()
 		if err == nil {
-			for _, peerShard := range d.peers {
+			// the callback registered above may replace the list at any time
+			d.peerLock.RLock()
+			peers := d.peers
+			d.peerLock.RUnlock()
+			for _, peerShard := range peers {
 				if self == peerShard.GetAddress() {
 					d.myShard = peerShard
 					return nil
@@ -133,7 +137,10 @@ func (d *DeterministicSharder) Start() error {
 		time.Sleep(5 * time.Second)
 	}
 
-	d.Logger.Error().WithFields(map[string]interface{}{"peers": d.peers, "self": self}).Logf("failed to find self in the peer list")
+	d.peerLock.RLock()
+	peers := d.peers
+	d.peerLock.RUnlock()
+	d.Logger.Error().WithFields(map[string]interface{}{"peers": peers, "self": self}).Logf("failed to find self in the peer list")
 	return errors.New("failed to find self in the peer list")
 }
 
